@@ -3,6 +3,7 @@ package cert
 import (
 	"container/list"
 	"crypto/sha256"
+	"encoding/binary"
 	"maps"
 	"slices"
 	"strings"
@@ -91,11 +92,17 @@ func (cache *Cache) BatchVerify(signature hotstuff.QuorumSignature, batch map[ho
 	ids := slices.Sorted(maps.Keys(batch))
 	var hash hotstuff.Hash
 	hasher := sha256.New()
-	// then hash the messages in sorted order
+	// then hash the messages in sorted order, each prefixed with its id and length,
+	// so that the digest determines which replica is claimed to have signed which message
+	var prefix [16]byte
 	for _, id := range ids {
+		binary.LittleEndian.PutUint64(prefix[:8], uint64(id))
+		binary.LittleEndian.PutUint64(prefix[8:], uint64(len(batch[id])))
+		_, _ = hasher.Write(prefix[:])
 		_, _ = hasher.Write(batch[id])
 	}
-	hasher.Sum(hash[:])
+	// Sum appends the digest to its argument; hash[:0] makes it write into hash.
+	hasher.Sum(hash[:0])
 
 	var key strings.Builder
 	_, _ = key.Write(hash[:])
